@@ -66,8 +66,16 @@ def chunk_list(size, c):
     return out
 
 
+PAYLOAD_MODE = ["small"]
+BIG_LENGTHS = [4095, 4097, 0, 3000, 9000, 4096, 1, 8192, 12289]
+
+
 def payload(i):
-    """distinct payloads, lengths 0..5, chunk 2 is empty"""
+    """distinct payloads, lengths 0..5, chunk 2 is empty ("big" mode:
+    lengths around the 4096-byte read size of the write buffers)"""
+    if PAYLOAD_MODE[0] == "big":
+        n = BIG_LENGTHS[i % len(BIG_LENGTHS)]
+        return bytes((i * 31 + k * 7 + k // 251) % 256 for k in range(n))
     if i == 2:
         return b""
     b = bytes([(17 * i + 3) % 251 + 1]) * (i % 5 + 1) + bytes([i % 256])
@@ -165,6 +173,8 @@ def case_of(cfg, order, **kw):
          "data_enc": cfg["data_enc"], "strategy": cfg["strategy"],
          "order": list(order),
          "any_gzip": "gzip" in (cfg["index_enc"], cfg["data_enc"])}
+    if cfg.get("payloads"):
+        c["payloads"] = cfg["payloads"]
     c.update(kw)
     return c
 
@@ -207,7 +217,7 @@ def check_closed(cfg, d, stored, chunks, order, vio, pkg=True, spec=True,
                         c2 = dict(case)
                         c2["fetch"] = i
                         vio.add("C05/fetch/wrong-bytes", c2,
-                                bytes(payload(i)).hex(), bytes(got).hex()[:200])
+                                bytes(payload(i)).hex()[:200], bytes(got).hex()[:200])
                 elif len(got) != 0:
                     c2 = dict(case)
                     c2["fetch"] = i
@@ -244,7 +254,7 @@ def check_closed(cfg, d, stored, chunks, order, vio, pkg=True, spec=True,
                 elif got != bytes(payload(i)):
                     c2 = dict(case)
                     c2["fetch"] = i
-                    vio.add("C04/spec/wrong-bytes", c2, bytes(payload(i)).hex(),
+                    vio.add("C04/spec/wrong-bytes", c2, bytes(payload(i)).hex()[:200],
                             got.hex()[:200])
             elif got:
                 c2 = dict(case)
@@ -266,6 +276,12 @@ def check_closed(cfg, d, stored, chunks, order, vio, pkg=True, spec=True,
 def run_history(cfg, order, vio, pkg=True, spec=True):
     """replay one store order on a fresh writer, close, check.
     returns (dir digest or None)"""
+    if cfg.get("payloads") == "big" and PAYLOAD_MODE[0] != "big":
+        PAYLOAD_MODE[0] = "big"
+        try:
+            return run_history(cfg, order, vio, pkg, spec)
+        finally:
+            PAYLOAD_MODE[0] = "small"
     chunks = chunk_list(cfg["size"], cfg["chunk"])
     d = new_dataset_dir(cfg)
     try:
@@ -383,26 +399,52 @@ def bfs(cfg, vio, max_states=20000, pkg=True, spec=True):
         sandbox.rm(d)
 
 
-def run_two_scale(cfg, order0, order1, vio, pkg=True, spec=True):
+def run_two_scale(cfg, order0, order1, vio, pkg=True, spec=True,
+                  mode="close-between"):
     """the pattern compute_dyadic_scales uses on one accessor object: store
     chunks of scale s0, close, store chunks of scale s1, close, close again
     (must be a no-op). Both scales are then checked like a one-scale
-    dataset. Returns the directory digest or None."""
+    dataset. Returns the directory digest or None.
+
+    mode "single-close": what convert_chunks does - all of s0, then all of
+    s1, one close at the end (both scales' write buffers alive together);
+    mode "alternating": chunks of the two scales stored alternately, one
+    close at the end."""
     size1 = [-(-x // 2) for x in cfg["size"]]
     chunks0 = chunk_list(cfg["size"], cfg["chunk"])
     chunks1 = chunk_list(size1, cfg["chunk"])
     d = new_dataset_dir(cfg, two_scales=True)
     case = case_of(cfg, order0, order_s1=list(order1), family="two-scale")
+    if mode != "close-between":
+        case["mode"] = mode
     try:
         acc = open_writer(d, cfg["strategy"])
         try:
-            for i in order0:
-                acc.store_chunk(payload(i), KEY, chunks0[i][1])
-            with sandbox.quiet():
-                acc.close()
-            mid = dir_digest(d)
-            for i in order1:
-                acc.store_chunk(payload(i + 50), "s1", chunks1[i][1])
+            if mode == "alternating":
+                seq = []
+                for k in range(max(len(order0), len(order1))):
+                    if k < len(order0):
+                        seq.append((0, order0[k]))
+                    if k < len(order1):
+                        seq.append((1, order1[k]))
+                for sc, i in seq:
+                    if sc == 0:
+                        acc.store_chunk(payload(i), KEY, chunks0[i][1])
+                    else:
+                        acc.store_chunk(payload(i + 50), "s1",
+                                        chunks1[i][1])
+                mid = {}
+            else:
+                for i in order0:
+                    acc.store_chunk(payload(i), KEY, chunks0[i][1])
+                if mode == "close-between":
+                    with sandbox.quiet():
+                        acc.close()
+                    mid = dir_digest(d)
+                else:
+                    mid = {}
+                for i in order1:
+                    acc.store_chunk(payload(i + 50), "s1", chunks1[i][1])
             with sandbox.quiet():
                 acc.close()
             after = dir_digest(d)
@@ -427,6 +469,8 @@ def run_two_scale(cfg, order0, order1, vio, pkg=True, spec=True):
                      spec)
         for sig, c, e, o in v0.items + v1.items:
             c = dict(c, order_s1=list(order1), family="two-scale")
+            if mode != "close-between":
+                c["mode"] = mode
             vio.add(sig, c, e, o)
         return after
     finally:
@@ -462,7 +506,7 @@ def _check_scale(cfg, d, key, stored, chunks, off, case, vio, pkg, spec):
                 if i in stored:
                     if bytes(got) != bytes(payload(i + off)):
                         vio.add("C05/fetch/wrong-bytes", c2,
-                                bytes(payload(i + off)).hex(),
+                                bytes(payload(i + off)).hex()[:200],
                                 bytes(got).hex()[:200])
                 elif len(got) != 0:
                     vio.add("C05/unstored-chunk-returned-data", c2,
@@ -487,7 +531,7 @@ def _check_scale(cfg, d, key, stored, chunks, off, case, vio, pkg, spec):
                         "chunk id %d" % cid, "no entry")
             elif i in stored and got != bytes(payload(i + off)):
                 vio.add("C04/spec/wrong-bytes", c2,
-                        bytes(payload(i + off)).hex(), got.hex()[:200])
+                        bytes(payload(i + off)).hex()[:200], got.hex()[:200])
             elif i not in stored and got:
                 vio.add("C04/spec/unstored-chunk-has-data", c2, "absent",
                         got.hex()[:200])
